@@ -12,3 +12,4 @@ import ExaModel.Props.C10
 #print axioms Exa.Props.C10.semCode_defined
 #print axioms Exa.Props.C10.subcode_names_rfc
 #print axioms Exa.Props.C10.code_names_rfc
+#print axioms Exa.Props.C10.refused_incoming_is_cease
